@@ -396,6 +396,51 @@ def check_trend(case, ctx):
     ctx.nt(e.size >= ncoef and len(case["poly"]) > 0 and (deg == 0 or any(k != "0,0" for k in case["poly"])))
 
 
+# ---------------------------------------------------------------- large data sets
+@st.composite
+def large_cases(draw):
+    return dict(n=draw(st.sampled_from([400, 700])), seed=draw(st.integers(0, 10**6)), scale=draw(st.sampled_from([1.0, 1e3, 1e-2])), offset=draw(st.sampled_from([0.0, 0.0, 100.0, 1e4])),
+                gridder=draw(st.sampled_from(["spline", "spline", "knn", "linear", "chain"])), int_data=draw(st.booleans()))
+
+
+def check_large(case, ctx):
+    """hundreds of scattered points (condition numbers of 1e6 and more): the exact interpolators still reproduce their data"""
+    rng = np.random.RandomState(case["seed"])  # a pure function of the generated case
+    n, sc, off = case["n"], case["scale"], case["offset"]
+    side = int(math.ceil(math.sqrt(n))) + 2
+    cells = rng.permutation(side * side)[:n]
+    e = off * sc + sc * ((cells % side) + rng.uniform(0.1, 0.9, n))
+    nn = -off * sc + sc * ((cells // side) + rng.uniform(0.1, 0.9, n))
+    d = np.round(50 * (np.sin(e / (5 * sc)) + np.cos(nn / (7 * sc))) + rng.uniform(-5, 5, n))
+    d_arg = d.astype("int64") if case["int_data"] else d
+    g = case["gridder"]
+    if g == "spline":
+        jac = kernels.spline_jacobian(e, nn, e, nn, 0.0)
+        kappa = scaled_cond(jac)
+        if not kappa <= KAPPA_MAX:
+            ctx.skip("ill_conditioned")
+        est = quiet(vd.Spline)
+        tol = 64 * kappa * EPS * float(np.max(np.abs(d))) + TINY
+    elif g == "knn":
+        est, tol = vd.KNeighbors(), 0.0
+    elif g == "linear":
+        est, tol = vd.Linear(), 1e-9 * float(np.max(np.abs(d)))
+    else:
+        est, tol = vd.Chain([("trend", vd.Trend(1)), ("knn", vd.KNeighbors())]), 1e-9 * float(np.max(np.abs(d)))
+    quiet(est.fit, (e, nn), d_arg)
+    pred = np.asarray(est.predict((e, nn)), dtype="float64")
+    err = np.abs(pred - d)
+    if g == "linear":
+        # known finding D9: SciPy may return NaN at hull-vertex data points; everything else must be reproduced
+        err = err[~np.isnan(pred)]
+        ctx.check(np.isnan(pred).sum() <= 4, "Linear predicts NaN at %d of its %d data points", int(np.isnan(pred).sum()), n)
+    if err.size and not float(err.max()) <= tol:
+        raise Violation("%s fitted to %d scattered points (scale %g, offset %g, %s data) does not reproduce its data: max error %.3e, tolerance %.3e" % (
+            g, n, sc, off, "integer" if case["int_data"] else "float", float(err.max()), tol))
+    ctx.label(g, "n%d" % n, "int_data" if case["int_data"] else "float_data")
+    ctx.nt(True)
+
+
 SUBCHECKS = [
     Sub("spline", check_spline, strategy=spline_cases_tier, quick=250, thorough=800, shards_quick=4,
         doc="undamped Spline with forces at the data reproduces the data within 64 kappa eps max|d| (kappa from the harness' own Jacobian)"),
@@ -409,4 +454,6 @@ SUBCHECKS = [
         doc="Chain/Vector assemblies of exact interpolators (and trends) reproduce the data"),
     Sub("trend_polynomial", check_trend, strategy=trend_cases(), quick=400, thorough=2500, shards_quick=2,
         doc="Trend(N) fitted to an integer-coefficient polynomial of total degree <= N reproduces it at other locations"),
+    Sub("large", check_large, strategy=large_cases(), quick=6, thorough=40, heavy=True,
+        doc="400 - 700 scattered points (condition numbers around 1e6-1e7, also integer-dtype data): Spline, KNeighbors, Linear and a Trend+KNeighbors chain reproduce their data"),
 ]
